@@ -89,6 +89,14 @@ def alts(s):
 
 def run(ctx: Ctx):
     differentiable_helpers(ctx)
+    critic_value_shape(ctx)
+    # the baseline that enters the surrogate is the configured one: settings stored as given, one owner per piece of state
+    # (shared with C20.g)
+    from . import C20 as _C20
+    _n0 = len(ctx.obligations)
+    _C20.ownership_rules(ctx)
+    for _o in ctx.obligations[_n0:]:
+        _o.rule = "C16.g"
     base = ctx.repo.get_class(BL, "REINFORCEBaseline")
     subs = [c for c in ctx.repo.modules["rl4co.models.rl.reinforce.baselines"].classes.values() if c is not base and base in ctx.repo.mro(c)]
     evals = [c for c in subs if "eval" in c.methods]
@@ -418,6 +426,76 @@ def _names(s, L):
         if v is s:
             out.add(k)
     return out
+
+
+def critic_value_shape(ctx: Ctx):
+    """C16.f the bundled critic returns ONE value per instance as a [batch, 1] column: PPO pairs it with `reward.view(-1, 1)`
+    (advantage = reward - value, huber(value, reward)) and the critic baseline squeezes it.  Rank lineage of the default path
+    of CriticNetwork.forward: encoder output [batch, nodes, embed] (rank 3), the value head keeps the rank (Linear / ReLU),
+    and every reduction / squeeze lowers it by one -- the returned value must have rank 2.  A [batch] vector broadcasts
+    against the [batch, 1] reward to a [batch, batch] table that pairs every instance with every other instance's value."""
+    import ast
+    cls = ctx.repo.get_class("rl4co/models/rl/common/critic.py", "CriticNetwork")
+    fi = cls.methods.get("forward")
+    if fi is None:
+        raise AnalysisError("CriticNetwork.forward not found")
+    ctx.fn(fi)
+    # default path: the branch taken when `self.customized` is False
+    branch = None
+    for n in ast.walk(fi.node):
+        if isinstance(n, ast.If) and "customized" in ast.unparse(n.test):
+            t, neg = n.test, False
+            while isinstance(t, ast.UnaryOp) and isinstance(t.op, ast.Not):
+                t, neg = t.operand, not neg
+            branch = n.body if neg else n.orelse
+    if not branch:
+        raise AnalysisError("CriticNetwork.forward: default (not customized) branch not found")
+    env = {}
+
+    def rank(e):
+        if isinstance(e, ast.Name):
+            return env.get(e.id)
+        if isinstance(e, ast.Call) and isinstance(e.func, ast.Attribute):
+            base = e.func.value
+            a = e.func.attr
+            if isinstance(base, ast.Name) and base.id == "self" and a == "value_head":
+                return rank(e.args[0]) if e.args else None          # Linear / ReLU stack: rank preserved
+            r = rank(base)
+            if r is None:
+                return None
+            if a in ("mean", "sum", "max", "min", "amax", "amin", "squeeze"):
+                kd = [k for k in e.keywords if k.arg in ("keepdim", "keepdims") and isinstance(k.value, ast.Constant) and k.value.value is True]
+                if a == "squeeze" and not e.args and not e.keywords:
+                    return None                                   # dimension-less squeeze: rank depends on the sizes
+                return r if kd else r - 1
+            if a == "unsqueeze":
+                return r + 1
+            if a in ("view", "reshape"):
+                return len(e.args) if e.args and not any(isinstance(x, ast.Starred) for x in e.args) else None
+            if a in ("float", "clone", "contiguous", "to", "detach"):
+                return r
+        if isinstance(e, ast.Attribute) and e.attr == "values":
+            return rank(e.value)
+        return None
+    out = None
+    for st in branch:
+        if isinstance(st, ast.Assign):
+            tg = st.targets[0]
+            if isinstance(tg, ast.Tuple) and isinstance(st.value, ast.Call) and "encoder" in ast.unparse(st.value.func):
+                if tg.elts and isinstance(tg.elts[0], ast.Name):
+                    env[tg.elts[0].id] = 3                         # h: [batch, nodes, embed]
+            elif isinstance(tg, ast.Name):
+                if isinstance(st.value, ast.Call) and "encoder" in ast.unparse(st.value.func):
+                    env[tg.id] = 3
+                else:
+                    env[tg.id] = rank(st.value)
+        if isinstance(st, ast.Return) and st.value is not None:
+            out = rank(st.value)
+    ok = out == 2
+    ctx.ob("C16.f", "CriticNetwork.forward:value-is-a-[batch,1]-column", ok, fi.loc,
+           f"rank of the returned value on the default path: {out} (encoder output 3, value head keeps it, each reduction / squeeze lowers it)" +
+           ("" if ok else " -- PPO subtracts it from reward.view(-1, 1): a rank-1 value broadcasts to [batch, batch]"),
+           construct="CriticNetwork.forward:value-rank")
 
 
 def differentiable_helpers(ctx: Ctx):
